@@ -22,7 +22,8 @@ CTX = Ctx()
 
 class Op:
     def __init__(self, name, args, ret, expr, oracle, cls='ui', props=(), pre=None, lane_pre=None, cmp='bits',
-                 consts=None, scalar=None, widths=None, tier='quick', note='', rm='sym', alt=None, only_types=None, dst=None):
+                 consts=None, scalar=None, widths=None, tier='quick', note='', rm='sym', alt=None, only_types=None, dst=None, slices=None):
+        self.slices = slices      # bounded sub-domains tried when the full-domain query is undecided: fn(T, lane, *args) -> [(name, constraint)]
         self.only_types = only_types
         self.dst = dst
         self.alt = alt          # (predicate on T, alternative oracle): the obligation is discharged when either oracle is matched
@@ -592,6 +593,23 @@ A = 'uif'
 amt_pre = lambda T, a, s: [amt64_ok(T, s)]
 vamt_pre = lambda T, a, s: [sym.ule(x, T.bits, T.bits) for x in s]
 div_lp = lambda T, i, a, b: div_ok(T, a[i], b[i])
+
+
+def div_slices(T, i, a, b):
+    """bounded sub-domains for division (used only when the full-range query is undecided; results are reported as bounded)"""
+    w = T.bits
+    k = min(8, w // 2)
+    x, y = a[i], b[i]
+    if T.signed:
+        small = lambda v: b_and(sym.sle(v, (1 << k) - 1, w), sym.sle((-(1 << k)) & M(w), v, w))
+        return [('|x|,|y| < 2^%d' % k, b_and(small(x), small(y))),
+                ('|y| < 2^%d, x within 2^%d of MIN/MAX' % (k, k), b_and(small(y), b_or(sym.sle(x, ((1 << (w - 1)) + (1 << k)) & M(w), w), sym.sle(((1 << (w - 1)) - 1 - (1 << k)) & M(w), x, w)))),
+                ('y within 2^%d of MIN/MAX' % k, b_or(sym.sle(y, ((1 << (w - 1)) + (1 << k)) & M(w), w), sym.sle(((1 << (w - 1)) - 1 - (1 << k)) & M(w), y, w)))]
+    return [('x,y < 2^%d' % k, b_and(sym.ult(x, 1 << k, w), sym.ult(y, 1 << k, w))),
+            ('y < 2^%d, x >= 2^%d - 2^%d' % (k, w, k), b_and(sym.ult(y, 1 << k, w), sym.uge(x, M(w) - (1 << k) + 1, w))),
+            ('y >= 2^%d - 2^%d' % (w, k), sym.uge(y, M(w) - (1 << k) + 1, w))]
+
+
 amt_pre.__name__, vamt_pre.__name__, div_lp.__name__ = 'amt_pre', 'vamt_pre', 'div_lp'
 
 # ---- C01
@@ -668,12 +686,12 @@ op('rotl_v', 'vv', 'v', 'avel::rotl({0}, {1})', lw(o_rotl_v), I, ['C04'])
 op('rotr_v', 'vv', 'v', 'avel::rotr({0}, {1})', lw(o_rotr_v), I, ['C04'])
 
 # ---- C05
-op('div_quot', 'vv', 'v', 'avel::div({0}, {1}).quot', lw(o_quot), I, ['C05'], lane_pre=div_lp, alt=[(use_ref, lw(o_quot_ref)), (is_signed, lw(o_quot_sm))])
-op('div_rem', 'vv', 'v', 'avel::div({0}, {1}).rem', lw(o_rem), I, ['C05'], lane_pre=div_lp, alt=[(use_ref, lw(o_rem_ref)), (is_signed, lw(o_rem_sm))])
-op('quot', 'vv', 'v', '{0} / {1}', lw(o_quot), I, ['C05'], lane_pre=div_lp, alt=[(use_ref, lw(o_quot_ref)), (is_signed, lw(o_quot_sm))], tier='thorough')
-op('rem', 'vv', 'v', '{0} % {1}', lw(o_rem), I, ['C05'], lane_pre=div_lp, alt=[(use_ref, lw(o_rem_ref)), (is_signed, lw(o_rem_sm))], tier='thorough')
-op('quot_assign', 'vv', 'v', 'vf::div_assign({0}, {1})', lw(o_quot), I, ['C05'], lane_pre=div_lp, alt=[(use_ref, lw(o_quot_ref)), (is_signed, lw(o_quot_sm))], tier='thorough')
-op('rem_assign', 'vv', 'v', 'vf::rem_assign({0}, {1})', lw(o_rem), I, ['C05'], lane_pre=div_lp, alt=[(use_ref, lw(o_rem_ref)), (is_signed, lw(o_rem_sm))], tier='thorough')
+op('div_quot', 'vv', 'v', 'avel::div({0}, {1}).quot', lw(o_quot), I, ['C05'], lane_pre=div_lp, slices=div_slices, alt=[(use_ref, lw(o_quot_ref)), (is_signed, lw(o_quot_sm))])
+op('div_rem', 'vv', 'v', 'avel::div({0}, {1}).rem', lw(o_rem), I, ['C05'], lane_pre=div_lp, slices=div_slices, alt=[(use_ref, lw(o_rem_ref)), (is_signed, lw(o_rem_sm))])
+op('quot', 'vv', 'v', '{0} / {1}', lw(o_quot), I, ['C05'], lane_pre=div_lp, slices=div_slices, alt=[(use_ref, lw(o_quot_ref)), (is_signed, lw(o_quot_sm))], tier='thorough')
+op('rem', 'vv', 'v', '{0} % {1}', lw(o_rem), I, ['C05'], lane_pre=div_lp, slices=div_slices, alt=[(use_ref, lw(o_rem_ref)), (is_signed, lw(o_rem_sm))], tier='thorough')
+op('quot_assign', 'vv', 'v', 'vf::div_assign({0}, {1})', lw(o_quot), I, ['C05'], lane_pre=div_lp, slices=div_slices, alt=[(use_ref, lw(o_quot_ref)), (is_signed, lw(o_quot_sm))], tier='thorough')
+op('rem_assign', 'vv', 'v', 'vf::rem_assign({0}, {1})', lw(o_rem), I, ['C05'], lane_pre=div_lp, slices=div_slices, alt=[(use_ref, lw(o_rem_ref)), (is_signed, lw(o_rem_sm))], tier='thorough')
 
 # ---- C06
 for nm, f in (('popcount', o_popcount), ('byteswap', o_byteswap), ('countl_zero', o_clz), ('countl_one', o_clo),
